@@ -142,6 +142,14 @@ static uint32_t corruptValue(const StoredFile& sf, const StoredFile::RefField& r
 		}
 		return cur;
 	}
+	if (kind == "sametype") {
+		// a block of the same type as the one designated now (typed lookups succeed; cross-object size assumptions do not hold)
+		if (rf.value < nb)
+			for (uint32_t k = 0; k < nb; k++) {
+				uint32_t c = uint32_t((a + k) % nb);
+				if (c != rf.value && sf.blockTypes[c] == sf.blockTypes[rf.value]) return c;
+			}
+	}
 	if (kind == "wrongtype") {
 		for (uint32_t k = 0; k < nb; k++) {
 			uint32_t c = uint32_t((a + k) % nb);
